@@ -24,6 +24,16 @@ fi
 rsync -a --exclude target /verif/harness/ "$M/harness/"
 sed -i "s|path = \"/repo/|path = \"$M/repo/|" "$M/harness/Cargo.toml"
 (cd "$M/harness" && CARGO_NET_OFFLINE=true cargo build --quiet 2>"$M/build.log") || { echo "BUILD FAILED"; tail -20 "$M/build.log"; exit 2; }
+if [ "$tier" = thorough ]; then
+    case "$id" in C03|C04|C06|C07)
+        # the libFuzzer targets, built against the mutated copy
+        rsync -a --exclude target --exclude fuzz-work /verif/fuzz/ "$M/fuzz/"
+        cp -f "$M/harness/Cargo.lock" "$M/fuzz/Cargo.lock" 2>/dev/null
+        (cd "$M/fuzz" && CARGO_NET_OFFLINE=true cargo +nightly fuzz build -s none --fuzz-dir . >"$M/fuzzbuild.log" 2>&1) || { echo "FUZZ BUILD FAILED"; tail -20 "$M/fuzzbuild.log"; exit 2; }
+        export VERIF_FUZZ_ROOT="$M/fuzz"
+        ;;
+    esac
+fi
 ulimit -s unlimited 2>/dev/null
 VERIF_OUT="$M/out" "$M/harness/target/debug/vcheck" "$id" "$tier" 2>&1 | grep -v "^  case" | cut -c1-400 | tail -${TAIL:-8}
 exit ${PIPESTATUS[0]}
